@@ -40,6 +40,11 @@ var LayoutTemplates = []string{
 	"{¶a¶b¶}",
 	"case·x·in¶a)¶b¶;;¶esac",
 	"for·i·in·a¶do¶b¶done",
+	"a¶b",
+	"((1·+·2))¶b",
+	"(a)¶b·c",
+	"{·a§}¶>f·b",
+	"a·&¶b",
 	"a·<<E\nx\nE\n",
 	"{·a·<<E;·}\nx\nE\n",
 	"a·<<E·&&·b\nx\nE\n",
